@@ -256,6 +256,20 @@ async fn run(sc: Value) {
                 });
                 results.push(json!({"op": "race_pair", "nids": nids, "oks": oks}));
             }
+            "burst" => {
+                // the client completes several open acts back to back, without waiting for the engine to settle in between
+                let pi = st["pid_index"].as_u64().unwrap_or(0) as usize;
+                let pid = pids.get(pi).cloned().unwrap_or_default();
+                let tasks = tasks_of(&engine, &pid);
+                let nids: Vec<String> = st["nids"].as_array().map(|a| a.iter().filter_map(|x| x.as_str().map(|s| s.to_string())).collect()).unwrap_or_default();
+                let tids: Vec<String> = nids.iter().map(|n| tasks.iter().filter(|t| t["nid"] == n.as_str()).next()
+                    .map(|t| t["tid"].as_str().unwrap().to_string()).unwrap_or("missing".to_string())).collect();
+                let mut oks = Vec::new();
+                for (i, tid) in tids.iter().enumerate() {
+                    oks.push(engine.executor().act().complete(&pid, tid, &vars_of(&st["options"][i])).is_ok());
+                }
+                results.push(json!({"op": "burst", "nids": nids, "oks": oks}));
+            }
             "answer_all" => {
                 let pi = st["pid_index"].as_u64().unwrap_or(0) as usize;
                 let pid = pids.get(pi).cloned().unwrap_or_default();
